@@ -6,6 +6,7 @@ reply: per op  `a x y sp p pc waiting dcycles acc=<data accesses> opn=<operand a
 -/
 import Py65.Driver.Common
 import Py65.Spec.Cycles
+import Py65.Spec.Decimal
 
 namespace Py65.Driver
 open Py65 Py65.Spec
@@ -75,6 +76,21 @@ def runSpec (args : List String) : String :=
       let probeL := (if probes = "-" then [] else (probes.splitOn ",").filterMap String.toInt?) ++ wr.reverse
       ";".intercalate outs.reverse ++ " | " ++
         ",".intercalate (probeL.eraseDups.map fun k => s!"{k}:{sf.mem k}")
+  | _ => "bad-op"
+
+
+/-- `dec <adc|sbc> <nmos|cmos> a m c` → `A C N V Z` per Spec.Decimal (Clark). -/
+def runDec (args : List String) : String :=
+  match args with
+  | [op, v, a, m, c] =>
+    let a := parseInt! a; let m := parseInt! m; let c := c = "1"
+    let r := match op, v with
+      | "adc", "nmos" => Spec.Decimal.adcNmos a m c
+      | "sbc", "nmos" => Spec.Decimal.sbcNmos a m c
+      | "adc", _ => Spec.Decimal.adcCmos a m c
+      | _, _ => Spec.Decimal.sbcCmos a m c
+    let b (x : Bool) : String := if x then "1" else "0"
+    s!"{r.a} {b r.c} {b r.n} {b r.v} {b r.z}"
   | _ => "bad-op"
 
 end Py65.Driver
